@@ -49,13 +49,16 @@ enum Op {
     DcborDiag,
     SharedCodec,
     RegisterThenUr,
+    /// a thread registers its own tag name in the global format context and then formats an
+    /// envelope carrying that tag: its own registration must be visible to it (program order)
+    CustomTagThenFormat,
 }
-const OPS: [Op; 12] = [Op::Format, Op::FormatFlat, Op::TreeFormat, Op::DiagAnnotated, Op::Hex, Op::RegisterTags, Op::ContextRead, Op::KnownValuesLookup, Op::FunctionsLookup, Op::DcborDiag, Op::SharedCodec, Op::RegisterThenUr];
+const OPS: [Op; 13] = [Op::Format, Op::FormatFlat, Op::TreeFormat, Op::DiagAnnotated, Op::Hex, Op::RegisterTags, Op::ContextRead, Op::KnownValuesLookup, Op::FunctionsLookup, Op::DcborDiag, Op::SharedCodec, Op::RegisterThenUr, Op::CustomTagThenFormat];
 
 impl Op {
     /// uses the global format context (initialises it on first use)
     fn initialises(&self) -> bool {
-        matches!(self, Op::Format | Op::FormatFlat | Op::TreeFormat | Op::DiagAnnotated | Op::Hex | Op::RegisterTags | Op::ContextRead | Op::RegisterThenUr)
+        matches!(self, Op::Format | Op::FormatFlat | Op::TreeFormat | Op::DiagAnnotated | Op::Hex | Op::RegisterTags | Op::ContextRead | Op::RegisterThenUr | Op::CustomTagThenFormat)
     }
     fn registers(&self) -> bool {
         matches!(self, Op::RegisterTags | Op::RegisterThenUr)
@@ -100,6 +103,15 @@ fn run_op(op: Op, e: &Envelope, shared: &Arc<Envelope>) -> String {
             let back = Envelope::try_from_cbor_data(bytes.clone()).map(|x| x.digest().into_owned().hex()).unwrap_or_else(|_| "decode-error".to_string());
             format!("{}|{}|{}", shared.digest().hex(), hex(&bytes), back)
         }
+        Op::CustomTagThenFormat => {
+            let tv: u64 = 610_000 + (shared.digest().data()[0] as u64 % 3);
+            let name = format!("verif-tag-{}", tv);
+            bc_envelope::with_format_context_mut!(|c: &mut FormatContext| {
+                c.tags_mut().insert(dcbor::Tag::new(tv, name.clone()));
+            });
+            let e2 = Envelope::new(CBOR::to_tagged_value(tv, "payload"));
+            format!("{}|{}", e2.format(), e2.diagnostic_annotated())
+        }
         Op::RegisterThenUr => {
             // program-order guarantee: after this thread's own register_tags(), ur_string() works
             bc_envelope::register_tags();
@@ -110,6 +122,18 @@ fn run_op(op: Op, e: &Envelope, shared: &Arc<Envelope>) -> String {
 
 fn hex(b: &[u8]) -> String {
     b.iter().map(|x| format!("{:02x}", x)).collect()
+}
+
+/// shuttle keeps the state of `Once` per execution, but the `Option<_>` inside each registry's
+/// `Mutex` lives in a process-wide static and would keep the previous execution's value. Clearing
+/// it at the end of every execution makes the next one start from genuinely uninitialised
+/// registries (Once not run AND data == None), as a fresh process would.
+fn reset_registries() {
+    *bc_envelope::GLOBAL_FORMAT_CONTEXT.get() = None;
+    *known_values::KNOWN_VALUES.get() = None;
+    *bc_envelope::extension::expressions::GLOBAL_FUNCTIONS.get() = None;
+    *bc_envelope::extension::expressions::GLOBAL_PARAMETERS.get() = None;
+    *dcbor::GLOBAL_TAGS.get() = None;
 }
 
 // ---------------------------------------------------------------------------------------
@@ -137,7 +161,9 @@ fn calibrate() -> Expected {
     let o2 = out.clone();
     let mut cfg = Config::new();
     cfg.stack_size = 0x100000;
-    cfg.failure_persistence = FailurePersistence::None;
+    // shuttle installs its panic hook once per process with the FIRST config it sees, so every Runner of
+    // this process uses the same persistence directory
+    cfg.failure_persistence = FailurePersistence::File(Some(persist_dir()));
     Runner::new(RandomScheduler::new_from_seed(1, 1), cfg).run(move || {
         let shared = Arc::new(plain_envelope());
         let mut ex = Expected::default();
@@ -159,6 +185,7 @@ fn calibrate() -> Expected {
             ex.dcbor_s1.push(run_op(Op::DcborDiag, e, &shared));
         }
         ex.constants.insert(Op::ContextRead, run_op(Op::ContextRead, &es[0], &shared));
+        ex.constants.insert(Op::CustomTagThenFormat, run_op(Op::CustomTagThenFormat, &es[0], &shared));
         // S2
         ex.constants.insert(Op::RegisterThenUr, run_op(Op::RegisterThenUr, &es[0], &shared));
         for (i, e) in es.iter().enumerate() {
@@ -167,6 +194,7 @@ fn calibrate() -> Expected {
             }
         }
         *o2.lock().unwrap() = ex;
+        reset_registries();
     });
     let ex = out.lock().unwrap().clone();
     ex
@@ -221,11 +249,17 @@ fn scenario(wl: Workload) {
     let seq = Arc::new(AtomicU64::new(0));
     let hist: Arc<StdMutex<Vec<Event>>> = Arc::new(StdMutex::new(vec![]));
     let shared = Arc::new(plain_envelope());
-    // the plan is drawn up-front on the main task
+    // the plan is drawn up-front on the main task (VERIF_SCHED_OPS=3,7,.. restricts the operation pool: a
+    // development aid for focusing the search; the registered checks never set it)
+    let pool: Vec<Op> = match std::env::var("VERIF_SCHED_OPS") {
+        Ok(v) => v.split(',').filter_map(|x| x.trim().parse::<usize>().ok()).filter(|i| *i < OPS.len()).map(|i| OPS[i]).collect(),
+        Err(_) => OPS.to_vec(),
+    };
+    let pool = if pool.is_empty() { OPS.to_vec() } else { pool };
     let mut plans: Vec<Vec<(Op, usize)>> = vec![];
     for _ in 0..nthreads {
         let k = 1 + draw(wl.max_ops as u64) as usize;
-        plans.push((0..k).map(|_| (OPS[draw(OPS.len() as u64) as usize], draw(2) as usize)).collect());
+        plans.push((0..k).map(|_| (pool[draw(pool.len() as u64) as usize], draw(2) as usize)).collect());
     }
     let mut handles = vec![];
     for (t, plan) in plans.into_iter().enumerate() {
@@ -246,7 +280,13 @@ fn scenario(wl: Workload) {
         h.join().expect("C20.completion: a worker thread panicked");
     }
     let events = hist.lock().unwrap().clone();
+    if std::env::var("VERIF_SCHED_TRACE").is_ok() {
+        let mut v = events.clone();
+        v.sort_by_key(|e| e.inv);
+        eprintln!("TRACE {}", v.iter().map(|e| format!("t{}:{:?}[{}..{}]len{}", e.thread, e.op, e.inv, e.ret, e.out.len())).collect::<Vec<_>>().join(" "));
+    }
     check_history(&events, expected);
+    reset_registries();
     // bookkeeping (outside the scheduler's view: std primitives, never contended)
     let st = stats();
     st.executions.fetch_add(1, Ordering::Relaxed);
@@ -370,7 +410,28 @@ fn verif_dir() -> String {
     std::env::var("VERIF_DIR").unwrap_or_else(|_| "/verif".to_string())
 }
 
-fn run_batch(kind: &str, seed: u64, iterations: usize, wl: Workload, dir: &std::path::Path) -> Result<(), String> {
+/// one schedule directory per process; shuttle numbers the files schedule000.txt, schedule001.txt, ...
+fn persist_dir() -> std::path::PathBuf {
+    static DIR: OnceLock<std::path::PathBuf> = OnceLock::new();
+    DIR.get_or_init(|| {
+        let d = std::path::PathBuf::from(format!("{}/replays/C20-schedules-{}", verif_dir(), std::process::id()));
+        let _ = std::fs::remove_dir_all(&d);
+        std::fs::create_dir_all(&d).ok();
+        d
+    })
+    .clone()
+}
+
+fn schedule_count() -> usize {
+    std::fs::read_dir(persist_dir()).map(|d| d.filter_map(|e| e.ok()).filter(|e| e.file_name().to_string_lossy().starts_with("schedule")).count()).unwrap_or(0)
+}
+
+/// Run one batch of schedules. On failure returns (panic message, path of the schedule file persisted
+/// for it: the highest-numbered file, which did not exist before the batch).
+fn run_batch(kind: &str, seed: u64, iterations: usize, wl: Workload, _dir: &std::path::Path) -> Result<(), (String, String)> {
+    let before = schedule_count();
+    let bdir = persist_dir();
+    let dir = &bdir;
     let mut cfg = Config::new();
     cfg.stack_size = 0x100000;
     cfg.failure_persistence = FailurePersistence::File(Some(dir.to_path_buf()));
@@ -383,25 +444,29 @@ fn run_batch(kind: &str, seed: u64, iterations: usize, wl: Workload, dir: &std::
             Runner::new(RandomScheduler::new_from_seed(seed, iterations), cfg).run(move || scenario(wl));
         }
     });
+    let first = take_first_panic();
     match r {
         Ok(()) => Ok(()),
         Err(e) => {
-            let msg = if let Some(s) = e.downcast_ref::<&str>() {
+            let msg = if let Some(f) = first {
+                f
+            } else if let Some(s) = e.downcast_ref::<&str>() {
                 s.to_string()
             } else if let Some(s) = e.downcast_ref::<String>() {
                 s.clone()
             } else {
                 "panic".to_string()
             };
-            Err(msg)
+            let file = if schedule_count() > before { newest_schedule(&bdir).unwrap_or_default() } else { String::new() };
+            Err((msg, file))
         }
     }
 }
 
 fn newest_schedule(dir: &std::path::Path) -> Option<String> {
-    let mut v: Vec<_> = std::fs::read_dir(dir).ok()?.filter_map(|e| e.ok()).filter(|e| e.file_name().to_string_lossy().starts_with("schedule")).collect();
-    v.sort_by_key(|e| e.metadata().and_then(|m| m.modified()).ok());
-    v.last().map(|e| e.path().to_string_lossy().to_string())
+    let mut v: Vec<String> = std::fs::read_dir(dir).ok()?.filter_map(|e| e.ok()).map(|e| e.file_name().to_string_lossy().to_string()).filter(|n| n.starts_with("schedule")).collect();
+    v.sort(); // schedule000.txt < schedule001.txt < ...
+    v.last().map(|n| dir.join(n).to_string_lossy().to_string())
 }
 
 fn oracle_of(msg: &str) -> String {
@@ -414,9 +479,30 @@ fn oracle_of(msg: &str) -> String {
     "C20.completion".to_string()
 }
 
+/// every panic message of the process, in order (the hook is otherwise silent). The *first* message of a
+/// failing execution is the violation; later ones are shuttle's own consequences of unwinding.
+static PANICS: StdMutex<Vec<String>> = StdMutex::new(Vec::new());
+
+fn take_first_panic() -> Option<String> {
+    let mut p = PANICS.lock().unwrap();
+    let first = p.first().cloned();
+    p.clear();
+    first
+}
+
 fn main() {
-    // silent panic hook: violations are reported by the driver, not by the default hook
-    std::panic::set_hook(Box::new(|_| {}));
+    std::panic::set_hook(Box::new(|info| {
+        let msg = if let Some(s) = info.payload().downcast_ref::<&str>() {
+            s.to_string()
+        } else if let Some(s) = info.payload().downcast_ref::<String>() {
+            s.clone()
+        } else {
+            "panic".to_string()
+        };
+        if let Ok(mut p) = PANICS.lock() {
+            p.push(msg);
+        }
+    }));
     let args: Vec<String> = std::env::args().collect();
     let code = match args.get(1).map(|s| s.as_str()) {
         Some("run") => run_check(args.get(3).map(|s| s.as_str()).unwrap_or("quick")),
@@ -467,8 +553,8 @@ fn run_check(tier: &str) -> i32 {
     for (i, k) in kinds.iter().enumerate() {
         let before = stats().executions.load(Ordering::Relaxed);
         let s = seed.wrapping_mul(0x9E3779B97F4A7C15).wrapping_add(i as u64);
-        if let Err(msg) = run_batch(k, s, per, wl, &dir) {
-            violation = Some((k.to_string(), msg, newest_schedule(&dir).unwrap_or_default(), s));
+        if let Err((msg, file)) = run_batch(k, s, per, wl, &dir) {
+            violation = Some((k.to_string(), msg, file, s));
         }
         per_kind.insert(k.to_string(), stats().executions.load(Ordering::Relaxed) - before);
         if violation.is_some() {
@@ -486,9 +572,9 @@ fn run_check(tier: &str) -> i32 {
             for mo in 1..=wl.max_ops.min(2) {
                 let small = Workload { max_threads: mt, max_ops: mo };
                 for extra in 0..4u64 {
-                    if let Err(m2) = run_batch(kind, s.wrapping_add(1000 + extra), 3000, small, &dir) {
+                    if let Err((m2, f2)) = run_batch(kind, s.wrapping_add(1000 + extra), 3000, small, &dir) {
                         if oracle_of(&m2) == oracle {
-                            best = Some((small, m2, newest_schedule(&dir).unwrap_or_default()));
+                            best = Some((small, m2, f2));
                             break 'outer;
                         }
                     }
@@ -580,16 +666,20 @@ fn replay(path: &str) -> i32 {
     let oracle = v["oracle"].as_str().unwrap_or("").to_string();
     let ex = calibrate();
     EXPECTED.set(ex).ok();
+    take_first_panic();
     let r = std::panic::catch_unwind(move || {
         shuttle::replay_from_file(move || scenario(wl), &sched);
     });
+    let first = take_first_panic();
     match r {
         Ok(()) => {
             println!("NOT-REPRODUCED property=C20 oracle={}", oracle);
             0
         }
         Err(e) => {
-            let msg = if let Some(s) = e.downcast_ref::<&str>() {
+            let msg = if let Some(f) = first {
+                f
+            } else if let Some(s) = e.downcast_ref::<&str>() {
                 s.to_string()
             } else if let Some(s) = e.downcast_ref::<String>() {
                 s.clone()
